@@ -56,6 +56,8 @@ var Mutants = map[string][]Mutant{
 		{"Paths.Settle ignores its rule", "path_intersection.go", `return bentleyOttmann\(ps, nil, opSettle, fillRule\)`, `return bentleyOttmann(ps, nil, opSettle, NonZero)`, "E9.wrapper"},
 	},
 	"C03": {
+		{"control-point factor of the maximal piece angle", "path_util.go", `(?s)(func ellipseToCubicBeziers\(.*?\tdtheta := math\.Pi / 2\.0 // TODO[^\n]*\n\tn := int\(math\.Ceil\(math\.Abs\(theta1-theta0\) / dtheta\)\)\n)(\tdtheta = math\.Abs\(theta1-theta0\) / float64\(n\)[^\n]*\n)(\tkappa := [^\n]*\n)`, "${1}${3}${2}", "E11.factor-from-step"},
+		{"quadratic control-point factor of the maximal piece angle", "path_util.go", `(?s)(func ellipseToQuadraticBeziers\(.*?\tn := int\(math\.Ceil\(math\.Abs\(theta1-theta0\) / dtheta\)\)\n)(\tdtheta = math\.Abs\(theta1-theta0\) / float64\(n\)[^\n]*\n)(\tkappa := math\.Tan\(dtheta / 2\.0\)\n)`, "${1}${3}${2}", "E11.factor-from-step"},
 		{"second root re-mapped whenever the roots are ordered", "path_util.go", `(?s)\tsplit := false\n(.*?)\t\tsplit = true\n(.*?)\t\tif split \{\n\t\t\tt2 = \(t2 - t1\)`, "${1}${2}\t\tif t1 < t2 {\n\t\t\tt2 = (t2 - t1)", "E11.remap-iff-split"},
 		{"circular arc flattener drops the rotation", "path_util.go", `\t\ttheta0 \+= phi\n\t\ttheta1 \+= phi\n\n\t\t// draw line segments from arc\+tolerance`, "\n\t\t// draw line segments from arc+tolerance", "E3.arc-angle-frame"},
 		{"arc flattener loses its tolerance clamp", "path_util.go", `\ttolerance = math\.Max\(tolerance, Epsilon\) // a zero tolerance gives an infinite number of segments\n`, "", "E4.step-progress"},
@@ -68,6 +70,7 @@ var Mutants = map[string][]Mutant{
 		{"ToPDF forgets ReplaceArcs", "path.go", `\tp = p\.ReplaceArcs\(\)\n\n\tsb := strings\.Builder\{\}\n\tvar x, y float64\n\tfor i := 0; i < len\(p\.d\); \{\n\t\tcmd := p\.d\[i\]\n\t\tswitch cmd \{\n\t\tcase MoveToCmd:\n\t\t\tx, y = p\.d\[i\+1\], p\.d\[i\+2\]\n\t\t\tfmt\.Fprintf\(&sb, " %v %v m"`, "\tsb := strings.Builder{}\n\tvar x, y float64\n\tfor i := 0; i < len(p.d); {\n\t\tcmd := p.d[i]\n\t\tswitch cmd {\n\t\tcase MoveToCmd:\n\t\t\tx, y = p.d[i+1], p.d[i+2]\n\t\t\tfmt.Fprintf(&sb, \" %v %v m\"", "E10.consumer"},
 	},
 	"C04": {
+		{"inner curve of a clockwise stroke settled non-zero", "path_stroke.go", `q = q\.Append\(rhs\.Settle\(Negative\)\.Reverse\(\)\)`, "q = q.Append(rhs.Settle(NonZero).Reverse())", "E11.stroke-settle-rule"},
 		{"miter limit compared with the signed miter length", "path_stroke.go", `limit\*halfWidth < math\.Abs\(d\)`, "limit*halfWidth < d", "E11.signed-magnitude"},
 		{"join test compares the end normals of both segments", "path_stroke.go", `if !cur\.n1\.Equals\(next\.n0\) \{`, "if !cur.n1.Equals(next.n1) {", "E11.junction-pairing"},
 		{"offset radii passed untested to the radii correction", "path_stroke.go", `\t\t\tif !Equal\(cur\.rx-dr, 0\.0\) && !Equal\(cur\.ry-dr, 0\.0\) \{\n(\t\t\t\tlLambda = [^\n]*\n)\t\t\t\}\n`, "${1}", "E4.radii-nonzero"},
@@ -79,6 +82,7 @@ var Mutants = map[string][]Mutant{
 		{"closed flag also set by MoveTo", "path_stroke.go", `\t\tcase MoveToCmd:\n\t\t\tend = Point\{p\.d\[i\+1\], p\.d\[i\+2\]\}\n\t\tcase LineToCmd:\n\t\t\tend = Point\{p\.d\[i\+1\], p\.d\[i\+2\]\}\n\t\t\tn := end`, "\t\tcase MoveToCmd:\n\t\t\tend = Point{p.d[i+1], p.d[i+2]}\n\t\t\tclosed = false\n\t\tcase LineToCmd:\n\t\t\tend = Point{p.d[i+1], p.d[i+2]}\n\t\t\tn := end", "E11.cap-join"},
 	},
 	"C05": {
+		{"ScaleDash multiplies the caller's pattern in place", "canvas.go", `(?s)\td2 := make\(\[\]float64, len\(d\)\)\n\tfor i := range d \{\n\t\td2\[i\] = d\[i\] \* scale\n\t\}\n\treturn offset \* scale, d2\n`, "\tfor i := range d {\n\t\td[i] *= scale\n\t}\n\treturn offset * scale, d\n", "E1.dash-input-pure"},
 		{"line case claims [T, T+dT) while the curves claim (T, T+dT]", "path.go", `(?s)(dT := end\.Sub\(start\)\.Length\(\)\n\t\t\t\t\tTcurve := T\n\t\t\t\t\t)for j < len\(ts\) && T < ts\[j\] && ts\[j\] <= T\+dT \{`, "${1}for j < len(ts) && T <= ts[j] && ts[j] < T+dT {", "E11.cut-interval"},
 		{"quad cut loop carries the relative parameter", "path.go", `(?s)(\t\t\t\t\tr0, r1, r2 := start, cp, end\n.*?)\t\t\t\t\t\tt := invL\(ts\[j\] - T\)\n\t\t\t\t\t\ttsub := \(t - t0\) / \(1\.0 - t0\)\n\t\t\t\t\t\tt0 = t\n`, "${1}\t\t\t\t\t\ttsub := (invL(ts[j]-T) - t0) / (1.0 - t0)\n\t\t\t\t\t\tt0 = tsub\n", "E11.cut-carried"},
 		{"SplitAt's line case leaves the iteration early without advancing", "path.go", `\t\t\t\t\tif Tcurve < T\+dT \{\n\t\t\t\t\t\tq\.LineTo\(end\.X, end\.Y\)\n\t\t\t\t\t\}\n\t\t\t\t\tT \+= dT\n`, "\t\t\t\t\tif Tcurve < T+dT {\n\t\t\t\t\t\tq.LineTo(end.X, end.Y)\n\t\t\t\t\t} else {\n\t\t\t\t\t\ti += cmdLen(cmd)\n\t\t\t\t\t\tstart = end\n\t\t\t\t\t\tcontinue\n\t\t\t\t\t}\n\t\t\t\t\tT += dT\n", "E2.accumulator-advance"},
@@ -92,6 +96,7 @@ var Mutants = map[string][]Mutant{
 		{"arc cut relative to the arc start", "path.go", `ellipseSplit\(rx, ry, phi, cx, cy, startTheta, theta2, theta\)`, `ellipseSplit(rx, ry, phi, cx, cy, theta1, theta2, theta)`, "E11.cut-carried"},
 	},
 	"C06": {
+		{"quad tangency recognised for the parallel direction only", "path_intersection_util.go", `zs = zs\.add\(pos, s, root, dira, dirb, endpoint \|\| Equal\(A\.Dot\(deriv\), 0\.0\), false\)`, "zs = zs.add(pos, s, root, dira, dirb, endpoint || angleEqual(dira, deriv.Angle()), false)", "E9.tangent-both-ways"},
 		{"CCW takes the arriving curvature without reversing it", "path.go", `curvPrev := -p\.curvature\(kPrev, 1\.0\)`, "curvPrev := p.curvature(kPrev, 1.0)", "E11.reversed-frame"},
 		{"intersection parameters snapped by exact comparison only", "path_intersection_util.go", `\} else if 1\.0 < tb \|\| Equal\(tb, 1\.0\) \{`, "} else if 1.0 < tb {", "E9.endpoint-snap"},
 		{"ellipse hit flagged tangent by the value of the root", "path_intersection_util.go", `\t\ttangent := len\(roots\) == 1 // the line touches the ellipse[^\n]*\n`, "\t\ttangent := Equal(root, 0.0)\n", "E9.tangent-from-roots"},
@@ -156,6 +161,7 @@ var Mutants = map[string][]Mutant{
 		{"Close retags one end only", "path.go", `\t\tp\.d\[len\(p\.d\)-1\] = CloseCmd\n\t\tp\.d\[len\(p\.d\)-cmdLen\(LineToCmd\)\] = CloseCmd\n`, "\t\tp.d[len(p.d)-1] = CloseCmd\n", "E2.retag"},
 	},
 	"C11": {
+		{"ToSVG drops a MoveTo to the current pen position", "path.go", `(?s)(func \(p \*Path\) ToSVG\(\) string \{.*?\t\tcase MoveToCmd:\n)`, "${1}\t\t\tif 0 < i && Equal(x, p.d[i+1]) && Equal(y, p.d[i+2]) {\n\t\t\t\tbreak\n\t\t\t}\n", "E2.serialise-every-command"},
 		{"implicit lineto after m read as absolute", "path.go", `(?s)(p1 = p1\.Add\(p0\)\n\t\t\t\t)cmd = 'l'`, "${1}cmd = 'L'", "E11.implicit-command"},
 		{"sub-path start remembered before the relative offset", "path.go", `(?s)(\tvar p0, p1) (Point\n\tprevCmd := byte\('z'\).*?\t\t\tp1 = Point\{f\[0\], f\[1\]\}\n)(\t\t\tif cmd == 'm' \{.*?)\t\t\tp1 = p\.StartPos\(\)\n`, "${1}, start ${2}\t\t\tstart = p1\n${3}\t\t\tp1 = start\n", "E11.relative-before-use"},
 		{"number table becomes a 128-entry array", "path.go", `cmdLens := map\[byte\]int\{`, "cmdLens := [128]int{", "E4.table-index"},
@@ -251,6 +257,7 @@ var Mutants = map[string][]Mutant{
 		{"setter writes the stack", "canvas.go", `func \(c \*Context\) SetStrokeWidth\(width float64\) \{\n`, "func (c *Context) SetStrokeWidth(width float64) {\n\tc.stack = nil\n", "E11.ctx-setter"},
 	},
 	"C16": {
+		{"line heights skip spans whose face is not larger", "text.go", `(?s)(\tif mode == HorizontalTB \{\n)(\t\tfor _, span := range l\.spans \{\n\t\t\tif span\.IsText\(\) \{\n)`, "${1}\t\tsize := 0.0\n${2}\t\t\t\tif span.Face.Size <= size {\n\t\t\t\t\tcontinue\n\t\t\t\t}\n\t\t\t\tsize = span.Face.Size\n", "E3.line-heights-every-span"},
 		{"text bounds from the first and last span of the slice", "text.go", `(?s)(func \(t \*Text\) Bounds\(\) Rect \{.*?)\t\tfor _, span := range line\.spans \{\n(.*?)\n\t\t\}\n`, "${1}\t\tif len(line.spans) == 0 {\n\t\t\tcontinue\n\t\t}\n\t\tfirst, last := line.spans[0], line.spans[len(line.spans)-1]\n\t\trect = rect.Add(Rect{first.X, -line.y, last.X + last.Width, -line.y})\n\t\tfor _, span := range line.spans {\n${2}\n\t\t}\n", "E3.text-bounds-fold"},
 		{"run index taken before the leading white space is skipped", "text.go", `(?s)(\t\teolSkip := 0 // number of glyphs after the last box\n)(.*?)\t\tk := glyphIndices\.index\(a\) // index into runs\n`, "${1}\t\tk := glyphIndices.index(ag)\n${2}", "E11.derived-before-update"},
 		{"Reset keeps the embedded objects", "text.go", `\trt\.objects = map\[uint32\]TextSpanObject\{\} // are keyed by their position in the text\n`, "", "E11.reset-complete"},
@@ -268,6 +275,7 @@ var Mutants = map[string][]Mutant{
 		{"Text.Heights uses the first line's top", "text.go", `\t_, ascent, _, _ := firstLine\.Heights\(t\.WritingMode\)`, "\tascent, _, _, _ := firstLine.Heights(t.WritingMode)", "E3.line-heights"},
 	},
 	"C17": {
+		{"flagged-break demerit added first and overwritten by the else branch", "text/linebreak.go", `(?s)(\t\t\t\tdemerits := 0\.0\n)(.*?)(\t\t\t\tif lb\.items\[active\.Position\]\.Flagged && item\.Flagged \{\n\t\t\t\t\tdemerits \+= DemeritsFlagged\n\t\t\t\t\}\n)`, "${1}\t\t\t\tif lb.items[active.Position].Flagged && item.Flagged {\n\t\t\t\t\tdemerits = DemeritsFlagged\n\t\t\t\t}\n${2}", "E11.sum-not-overwritten"},
 		{"inactive nodes kept across a forced break", "text/linebreak.go", `(?s)\t\tif item\.Type == PenaltyType && item\.Penalty <= -Infinity \{\n\t\t\t// no line spans a forced break: the nodes before it cannot start a later line\n\t\t\tlb\.inactiveNodes = &Breakpoints\{\}\n\t\t\}\n`, "", "E4.forced-break-forgets"},
 		{"inactive nodes dropped only at forced breaks that carry a width", "text/linebreak.go", `(?s)(\t\tif item\.Type == PenaltyType && item\.Penalty <= -Infinity) (\{\n\t\t\t// no line spans a forced break)`, "${1} && item.Width != 0.0 ${2}", "E4.forced-break-forgets"},
 		{"unstretchable line tested on the running stretch sum", "text/linebreak.go", `if lb\.Y-active\.Y == 0\.0 \{`, "if lb.Y == 0.0 {", "E4.zero-guard-is-divisor"},
@@ -464,6 +472,7 @@ var negativeControls = map[string]struct {
 	"negctl":         {"locals renamed", negctlRenames},
 	"negctl-flip":    {"every comparison written the other way round (a < b as b > a, a == b as b == a)", []string{"a < b -> b > a", "a <= b -> b >= a", "a == b -> b == a", "a != b -> b != a"}},
 	"negctl-commute": {"factors of products and arguments of math.Min/Max swapped", []string{"math.Min(a, b) -> math.Min(b, a)", "math.Max(a, b) -> math.Max(b, a)", "a * b -> b * a"}},
+	"negctl-half":    {"halving written as a product (x / 2.0 as x * 0.5)", []string{"a / 2.0 -> a * 0.5"}},
 }
 
 func rewriteOverlay(repo string, rules []string) (map[string][]byte, error) {
@@ -519,7 +528,7 @@ func selfValidate(id string, r *core.Report, extra map[string]any) {
 		r.Infra("selfcheck", err.Error())
 		return
 	}
-	jobs := []string{"negctl", "negctl-flip", "negctl-commute"}
+	jobs := []string{"negctl", "negctl-flip", "negctl-commute", "negctl-half"}
 	for i := range Mutants[id] {
 		jobs = append(jobs, fmt.Sprint(i))
 	}
